@@ -27,6 +27,7 @@ _CLS = {}
 LOG = []
 BOUND = []      # ids of the objects whose overridden _on_bound ran
 OBJ_IDS = {}
+_KEEP = []
 _EXT = [None]   # forest cases: the second tree (pg.Ref items of the first tree point into it)
 
 
@@ -364,12 +365,14 @@ def build(t):
   elif t['k'] in ('def', 'inner', 'chk'):
     v = cls[t['k'] + ('sub' if t.get('sub') else '')](**{k: build(c) for k, c in t['items']})
     OBJ_IDS[id(v)] = nid
+    _KEEP.append(v)        # alive until the case ends: a Python id is never reused within a case
   elif t['k'] == 'req':
     v = cls['req'].partial(**{k: build(c) for k, c in t['items'] if not (isinstance(c, dict) and c.get('missing'))})
   else:
     # non-subscribing objects alternate between the base class and the intermediate class
     v = cls['sub' if t.get('sub') else ('plain' if nid % 2 else 'mid')](**{k: build(c) for k, c in t['items']})
     OBJ_IDS[id(v)] = nid
+    _KEEP.append(v)        # alive until the case ends: a Python id is never reused within a case
   return v
 
 
@@ -1624,6 +1627,7 @@ class C09(Prop):
     classes()
     del LOG[:]
     OBJ_IDS.clear()
+    del _KEEP[:]
     REACT.clear()
     RSTATE.update(root=None, fuel=0, depth=0)
     workers = []
@@ -1703,6 +1707,7 @@ class C09(Prop):
     classes()
     del LOG[:]
     OBJ_IDS.clear()
+    del _KEEP[:]
     root = build(case['tree'])
     REACT.clear()
     for rid, rpath, rcall in case.get('react', []):
